@@ -15,6 +15,8 @@ rotate/...   no crash.  After every runner call the retained files (slot keep ..
 fault/...    rotate/ (and, thorough, crash/) histories with one environment fault: one os.rename call (symbolic number)
              raises OSError(EIO), or one retained copy (symbolic slot, symbolic tick) is deleted by another actor.
              Demanded afterwards: only the clauses that do not depend on the keep window (see ASSUMPTIONS).
+kill/...     logs that write rarely (rule once; update / change with an idle loggee): the process is killed (no close) after
+             any runner call; every record written before the most recent firing of the Logger's flush timer must be in the files.
 crash/...    the process dies right after file-system operation number `crash` (symbolic).  Every record
              that had been written to a file before a completed fsync of that file must be in the
              durable view, and every record that had been flushed to the kernel must be in the kernel
@@ -25,7 +27,7 @@ from engine import Ob
 from engine.doubles_fs import MemFS, install, ProcessKilled
 from ioflo.base import logging as L, tasking
 from ioflo.base.storing import Store, Node
-from ioflo.base.globaling import ALWAYS, START, RUN, STOP
+from ioflo.base.globaling import ALWAYS, ONCE, UPDATE, CHANGE, START, RUN, STOP
 
 PROPERTY = "C23"
 ENGINE = "E1"
@@ -39,6 +41,9 @@ ASSUMPTIONS = [
     "and the disk at os.fsync(), a truncating open empties the kernel copy at once and the disk copy at the next fsync, no I/O errors, text == bytes; "
     "real-kernel durability (directory fsync, torn writes) is outside the claim",
     "'flush' in the crash clause := a completed os.fsync of the file (durable view) resp. a completed file.flush()/close() (kernel view)",
+    "the crash clause is also read at the Logger level: 'the most recent flush' := the most recent firing of Logger.log's flush timer (observed as a change "
+    "of Logger.flushStamp during a runner call); every record handed to file.write before it must be in the kernel view of the files when the process is "
+    "killed between two runner calls (kill/... and crash/... obligations); store and flushStamp start at stamp 0",
     "records of a generation older than (rotations begun - keep) are discarded by design and exempt from the crash clause",
     "a rotate slot that no rotation has reached yet may be an empty placeholder (Log.reopen trial-creates the slots)",
     "exact integer time: store.stamp assigned directly, Logger.cycleStamp/flushStamp start at int 0, cyclePeriod/flushPeriod/fileSize are assigned after "
@@ -81,15 +86,18 @@ def _ids(text):
     return out
 
 
-def _mklog(store, share):
-    log = L.Log(name="lg", store=store, kind="text", rule=ALWAYS)
+MODES = {"always": ALWAYS, "once": ONCE, "update-idle": UPDATE, "change-idle": CHANGE}
+
+
+def _mklog(store, share, rule=ALWAYS):
+    log = L.Log(name="lg", store=store, kind="text", rule=rule)
     log.addLoggee("v", share)
     return log
 
 
-def _probe_header(store, share):
+def _probe_header(store, share, rule=ALWAYS):
     """header text the real code builds for this Log configuration (for the files of the earlier session)"""
-    log = _mklog(store, share)
+    log = _mklog(store, share, rule)
     log.file = io.StringIO()
     log.prepare()
     L.Log.Clear()
@@ -108,6 +116,8 @@ class Ghost(object):
         self.rot_done = 0        # renames of the main file
         self.promise_disk = []   # ids written to a file before a completed fsync of it
         self.promise_os = []     # ids that reached the kernel
+        self.written = []        # ids handed to file.write so far
+        self.promise_timer = []  # ids written before the most recent firing of the Logger's flush timer
         self.size_fail = None
         self.size_limit = 0
         self.faulted = False     # an injected environment fault has happened
@@ -117,6 +127,13 @@ class Ghost(object):
 
     def hook(self, fs, event, info):
         if event == "write":
+            with _untraced(self.sym):
+                for i in _ids(info["text"]):
+                    if i not in self.written:
+                        self.written.append(i)
+                    if i not in self.gen:          # rules other than 'always': records are registered when written
+                        self.gen[i] = self.cur_gen
+                        self.stream.append(i)
             return
         if event == "rename-failed":
             self.faulted = True
@@ -159,7 +176,10 @@ class Ghost(object):
 def _check_crash(sym, gh, crash):
     with _untraced(sym):
         floor = gh.rot_started - gh.keep if gh.keep > 0 else None
-        for level, promised in (("disk", gh.promise_disk), ("os", gh.promise_os)):
+        for level, promised in (("disk", gh.promise_disk), ("os", gh.promise_os), ("timer", gh.promise_timer)):
+            timer = level == "timer"
+            if timer:
+                level = "os"          # "the process dies": what the kernel has survives
             have = set()
             for text in crash[level].values():
                 have.update(_ids(text))
@@ -170,7 +190,8 @@ def _check_crash(sym, gh, crash):
                     continue                      # generation discarded by design
                 if rid in gh.external_lost:
                     continue                      # was in a file another actor deleted
-                return ("C23/crash/flushed-record-not-durable" if level == "disk"
+                return ("C23/crash/record-written-before-flush-timer-fired-not-in-files" if timer
+                        else "C23/crash/flushed-record-not-durable" if level == "disk"
                         else "C23/crash/flushed-record-lost-from-kernel-view",
                         "record %s (generation %d) absent after dying at fs op %d (%s); rotations begun %d, keep %d; files %r"
                         % (rid, gh.gen[rid], crash["nops"], crash["event"], gh.rot_started, gh.keep,
@@ -244,13 +265,14 @@ def _check_retained(sym, fs, gh, header, pre_older, when):
     return None
 
 
-def h(sym, keep, reuse, T, nmax, dmax, pmax, smax, crash, restart=False, prefill=None, fault=None):
+def h(sym, keep, reuse, T, nmax, dmax, pmax, smax, crash, restart=False, prefill=None, fault=None, mode="always",
+      kill_between=False):
     fs = MemFS()
     fs.realize = sym.realize
     undo = install(fs)
     ctx = {}
     try:
-        return _h(sym, fs, ctx, keep, reuse, T, nmax, dmax, pmax, smax, crash, restart, prefill, fault)
+        return _h(sym, fs, ctx, keep, reuse, T, nmax, dmax, pmax, smax, crash, restart, prefill, fault, mode, kill_between)
     finally:
         lg = ctx.get("logger")
         if lg is not None and lg.runner is not None:
@@ -262,7 +284,7 @@ def h(sym, keep, reuse, T, nmax, dmax, pmax, smax, crash, restart=False, prefill
         undo()
 
 
-def _h(sym, fs, ctx, keep, reuse, T, nmax, dmax, pmax, smax, crash, restart, prefill, fault):
+def _h(sym, fs, ctx, keep, reuse, T, nmax, dmax, pmax, smax, crash, restart, prefill, fault, mode, kill_between):
     L.Logger.Clear(); tasking.Tasker.Clear(); L.Log.Clear()
     store = Store.__new__(Store)
     store.name = "s"
@@ -271,12 +293,13 @@ def _h(sym, fs, ctx, keep, reuse, T, nmax, dmax, pmax, smax, crash, restart, pre
     store.shares = Node().byName('')
     share = store.create("a.v")
     share.change(value="r0")
-    header = sym.realize(_probe_header(store, share))
+    rule = MODES[mode]
+    header = sym.realize(_probe_header(store, share, rule))
 
     logger = L.Logger(name="lgr", store=store, prefix="/x", reuse=reuse, keep=keep, cyclePeriod=1, fileSize=0,
                       flushPeriod=1)
     ctx["logger"] = logger
-    log = _mklog(store, share)
+    log = _mklog(store, share, rule)
     logger.addLog(log)
     logger.flushStamp = 0
     logger.cycleStamp = 0
@@ -333,15 +356,31 @@ def _h(sym, fs, ctx, keep, reuse, T, nmax, dmax, pmax, smax, crash, restart, pre
     def step(control, when):
         ctr[0] += 1
         rid = "r%d" % ctr[0]
-        share.update(value=rid)
-        gh.new_record(rid)                 # every runner call below performs exactly one Logger.log()
+        if mode == "always":
+            share.update(value=rid)
+            gh.new_record(rid)             # every runner call below performs exactly one Logger.log()
+        elif mode == "once" or ctr[0] == 1:
+            share.update(value=rid)        # '...-idle': the loggee is written once, before START, and then left alone
         gh.chain_len = 0
-        logger.runner.send(control)
+        fired = logger.flushStamp
+        try:
+            logger.runner.send(control)
+        finally:
+            if logger.flushStamp != fired:
+                # Logger.log's flush timer fired in this call (after the logs ran): the most recent "flush"
+                gh.promise_timer = list(gh.written)
+                sym.cover("flush-timer-fired")
         if gh.size_fail is not None:
             sym.fail("C23/rotate/rotated-below-size-threshold",
                      "%s: main renamed at size %s, threshold %s" % (when, gh.size_fail, sym.realize(logger.fileSize)))
-        if not crash:
+        if not crash and mode == "always":
             bad = _check_retained(sym, fs, gh, header, pre_older, when)
+            if bad:
+                sym.fail(bad[0], bad[1])
+        if kill_between and control != STOP:
+            # the process is killed between two runner calls (no close): what the kernel / the disk has is what is left
+            bad = _check_crash(sym, gh, dict(os=fs.view("os"), disk=fs.view("disk"), nops=fs.nops,
+                                             event="killed after " + when))
             if bad:
                 sym.fail(bad[0], bad[1])
 
@@ -435,7 +474,7 @@ def obligations(tier):
             T = 2 if quick else 3
             prefill = (min(keep, 1), 1) if reuse else None
             params = dict(keep=keep, reuse=reuse, T=T, nmax=2, dmax=1, pmax=2, smax=40, crash=80, restart=False,
-                          prefill=prefill)
+                          prefill=prefill, kill_between=True)
             name = "crash/keep=%d/%s" % (keep, "reuse" if reuse else "unique")
             out.append(Ob(name, h, params, budget=600 if quick else 3000,
                           covers=["died"] + (["died-after-rotation-began"] if keep else []),
@@ -443,4 +482,17 @@ def obligations(tier):
                                       flush_period="1..2 (symbolic)", size_threshold="0..40 (symbolic)",
                                       crash_index="1..80 (symbolic; every file-system operation of the history)",
                                       keep=keep, reuse=reuse, earlier_session_files=prefill)))
+    # logs that write rarely (once / update or change with an idle loggee): the record of START must be in the files
+    # once the Logger's flush timer has fired, whenever the process is killed afterwards (checked after every runner call)
+    for keep in (0, 1) if quick else (0, 1, 2):
+        for mode in ("once", "update-idle", "change-idle"):
+            T = 3 if quick else 4
+            pm = 2 if quick else 3
+            params = dict(keep=keep, reuse=False, T=T, nmax=2, dmax=1, pmax=pm, smax=40, crash=0, restart=False,
+                          prefill=None, mode=mode, kill_between=True)
+            out.append(Ob("kill/%s/keep=%d" % (mode, keep), h, params, budget=600 if quick else 3000,
+                          covers=["flush-timer-fired"],
+                          bounds=dict(ticks=T, runs_per_tick="0..2 (symbolic)", cycle_period="1..%d (symbolic)" % pm,
+                                      flush_period="1..%d (symbolic)" % pm, size_threshold="0..40 (symbolic)", keep=keep,
+                                      log_rule=mode, kill_points="after every runner call (START and each RUN), no close")))
     return out
